@@ -87,13 +87,7 @@ def get_combinations_from_columns(all_columns: pd.Index, args: Any) -> list[tupl
         else:
             combinations = list(_combinations)
 
-    if args.target_ranking_only != 'True':
-        # Diagonal elements (non-label)
-        combinations += [
-            (individual_column, individual_column)
-            for individual_column in all_columns
-            if individual_column != args.label_column
-        ]
+    # note: combinations_with_replacement already contains the diagonal elements
     return combinations
 
 
